@@ -20,7 +20,8 @@ case "$PROP" in
   C03|C04|C16) PLAN="bytes:1500000:4096:";;
   C12) PLAN="fibex:150000:8192:-timeout=5";;
   C13) PLAN="args:2000000:256:";;
-  C01|C05|C06|C15) PLAN="strat:150000:2048:";;
+  C01|C06|C15) PLAN="strat:150000:2048:";;
+  C05) PLAN="strat:30000:2048:";;   # every execution enumerates all cut positions of its message (about 40 exec/s under ASan)
   C07|C08|C10) PLAN="strat:60000:2048:";;
   C09) PLAN="strat:500000:1024:";;
   C17|C18|C19) PLAN="strat:2000000:512:";;
